@@ -365,6 +365,19 @@ pub fn gen(id: &str, r: &mut Rng, out: &mut Vec<Case>) {
                 }
             }
         }
+        "C14T" => {
+            // model-independent form of C14: any flag-taking call, made from a clear word and from a random word
+            let mut tmp = Vec::new();
+            let id2 = *r.pick(&["C01", "C02", "C04", "C06", "C07", "C08", "C09", "C10", "C11", "C12", "C13", "C16", "C17", "C03", "C14"]);
+            gen(id2, r, &mut tmp);
+            for c in tmp.into_iter().take(3) {
+                if !takes_flags(&c.op) || c.op == "twice" { continue; }
+                let mut args = vec![sval(&c.op)];
+                args.extend(c.args.into_iter());
+                let fl = 1 + r.below(63) as u32;
+                out.push(case("twice", c.mode, fl, args));
+            }
+        }
         "C16" => {
             let (x, y) = cmp_pair(r);
             let fl = flags_in(r);
